@@ -20,7 +20,7 @@ func init() {
 		Assume: []string{"model/eqsnap.go transcribes the documented Equal semantics", "go-cmp"},
 		Batches: func(tier string) []core.Batch { return stdBatches([]string{"base"}, 16) },
 		Gates: func(tier string) map[string]int64 {
-			return map[string]int64{"pairs": 10000, "equal_true": 3000, "equal_false": 3000, "mutant:scalar": 300, "mutant:zero-sign": 20, "mutant:nan-payload": 20, "mutant:unknown-across": 100, "mutant:unknown-within": 50, "protocmp_compares": 1000}
+			return map[string]int64{"pairs": 10000, "extension_set_pairs": 300, "equal_true": 3000, "equal_false": 3000, "mutant:scalar": 300, "mutant:zero-sign": 20, "mutant:nan-payload": 20, "mutant:unknown-across": 100, "mutant:unknown-within": 50, "protocmp_compares": 1000}
 		},
 		Run: runC30,
 	})
@@ -128,6 +128,11 @@ func runC30(c *core.Ctx, b core.Batch) {
 						}
 					}
 				}
+			}
+			// extension-set near misses: same number of extension entries, different key
+			// sets; valid-but-empty repeated extension entries next to populated ones
+			if k < 6 {
+				c30ExtensionSets(c, r, mt, name)
 			}
 			// near-miss mutants
 			for mu := 0; mu < 3; mu++ {
@@ -337,4 +342,101 @@ func firstDiffOrType(a, b *model.Snap, name string) string {
 		return d
 	}
 	return name
+}
+
+// c30ExtensionSets builds pairs of messages whose extension maps have equal
+// sizes but different keys, including entries that are valid but empty lists
+// (Mutable without Append, Set of an empty list, Truncate(0)).
+func c30ExtensionSets(c *core.Ctx, r *core.Rand, mt protoreflect.MessageType, name string) {
+	md := mt.Descriptor()
+	if md.ExtensionRanges().Len() == 0 || gen.IsMessageSet(md) {
+		return
+	}
+	xts := gen.ExtensionsOf(nil2global(), md.FullName())
+	var lists, singles []protoreflect.ExtensionType
+	for _, xt := range xts {
+		xd := xt.TypeDescriptor()
+		if xd.Message() != nil && gen.InvolvesMessageSet(xd.Message()) {
+			continue
+		}
+		if xd.IsList() {
+			lists = append(lists, xt)
+		} else if !xd.IsMap() {
+			singles = append(singles, xt)
+		}
+	}
+	if len(lists) == 0 || len(lists)+len(singles) < 2 {
+		return
+	}
+	setSingle := func(m protoreflect.Message, xt protoreflect.ExtensionType) {
+		xd := xt.TypeDescriptor()
+		if xd.Message() != nil {
+			v := m.NewField(xd)
+			gen.Fill(r, v.Message(), gen.MsgOpts{Density: 30, MaxDepth: 1})
+			m.Set(xd, v)
+			return
+		}
+		m.Set(xd, gen.RandScalar(r, xd, gen.MsgOpts{}))
+	}
+	emptyList := func(m protoreflect.Message, xt protoreflect.ExtensionType, how int) {
+		xd := xt.TypeDescriptor()
+		switch how % 3 {
+		case 0:
+			m.Mutable(xd) // valid, empty
+		case 1:
+			m.Set(xd, m.NewField(xd))
+		default:
+			l := m.Mutable(xd).List()
+			if xd.Message() != nil {
+				l.Append(l.NewElement())
+			} else {
+				l.Append(gen.RandScalar(r, xd, gen.MsgOpts{}))
+			}
+			l.Truncate(0)
+		}
+	}
+	for how := 0; how < 3; how++ {
+		for _, dyn := range []bool{false, true} {
+			// x: one empty-list entry; y: one populated other extension
+			x, y := newOf(mt, dyn), newOf(mt, dyn)
+			le := lists[r.Intn(len(lists))]
+			emptyList(x, le, how)
+			var other protoreflect.ExtensionType
+			for tries := 0; tries < 10 && (other == nil || other == le); tries++ {
+				all := append(append([]protoreflect.ExtensionType{}, lists...), singles...)
+				other = all[r.Intn(len(all))]
+			}
+			if other == nil || other == le {
+				continue
+			}
+			if other.TypeDescriptor().IsList() {
+				l := y.Mutable(other.TypeDescriptor()).List()
+				if other.TypeDescriptor().Message() != nil {
+					l.Append(l.NewElement())
+				} else {
+					l.Append(gen.RandScalar(r, other.TypeDescriptor(), gen.MsgOpts{}))
+				}
+			} else {
+				setSingle(y, other)
+			}
+			c.Count("extension_set_pairs")
+			c30Pair(c, mt, name, x, y, "extension-sets:empty-list-vs-other")
+			c30Pair(c, mt, name, y, x, "extension-sets:empty-list-vs-other")
+			c30Pair(c, mt, name, x, newOf(mt, dyn), "extension-sets:empty-list-vs-empty-message")
+			// both hold the same populated extension, x additionally an empty list, y additionally another one
+			if len(singles) > 0 {
+				x2, y2 := proto.Clone(x.Interface()).ProtoReflect(), proto.Clone(y.Interface()).ProtoReflect()
+				sx := singles[r.Intn(len(singles))]
+				if sx != other {
+					v := gen.RandScalar
+					_ = v
+					setSingle(x2, sx)
+					y2.Set(sx.TypeDescriptor(), c26CloneValue(sx.TypeDescriptor(), x2.Get(sx.TypeDescriptor())))
+					c.Count("extension_set_pairs")
+					c30Pair(c, mt, name, x2, y2, "extension-sets:shared-plus-empty-list-vs-shared-plus-other")
+					c30Pair(c, mt, name, y2, x2, "extension-sets:shared-plus-empty-list-vs-shared-plus-other")
+				}
+			}
+		}
+	}
 }
